@@ -168,21 +168,40 @@ def run(ctx: Ctx):
     # ---------------------------------------------------------------- R18.2
     tj, tc = repo.func("ReportTable.to_json"), repo.func("ReportTable.to_csv")
 
+    def _iters(fn):
+        """(target, iterable) of every for statement and comprehension clause of fn"""
+        return [(l.target, l.iter) for l in own_nodes(fn) if isinstance(l, (ast.For, ast.comprehension))]
+
+    def iterates(fn, coll):
+        """fn walks self.<coll>: directly, or through a local name whose definition contains it"""
+        from ..order import local_resolver
+        res_ = local_resolver(fn.node)
+        for (_t, it) in _iters(fn):
+            if f"self.{coll}" in norm(it):
+                return True
+            for nm in [x for x in ast.walk(it) if isinstance(x, ast.Name)]:
+                if any(f"self.{coll}" in norm(d) for d in res_(nm)):
+                    return True
+        return False
+
     def body_cells(fn):
-        out = []
-        for l in own_nodes(fn):
-            if isinstance(l, ast.For) and norm(l.iter) == "self.body_lines":
-                for x in ast.walk(l):
-                    if isinstance(x, ast.Attribute) and isinstance(x.value, ast.Name) and x.value.id == "cell":
-                        out.append(x.attr)
-        return out
+        """attributes read from the cells of a line (names bound by iterating `<line>.cells`), if fn walks self.body_lines"""
+        if not iterates(fn, "body_lines"):
+            return []
+        cells = set()
+        for (t, it) in _iters(fn):
+            if ".cells" in norm(it):
+                cells |= {x.id for x in ast.walk(t) if isinstance(x, ast.Name)}
+        return [x.attr for x in own_nodes(fn) if isinstance(x, ast.Attribute) and isinstance(x.value, ast.Name) and x.value.id in cells]
     a, b = body_cells(tj), body_cells(tc)
     ok = bool(a) and bool(b) and set(a) == set(b) == {"text"}
     ctx.ob("R18.2", f"body cells: JSON reads cell.{sorted(set(a))}, CSV reads cell.{sorted(set(b))}", tj, ok,
            "both renderings carry cell.text of self.body_lines" if ok else "JSON and CSV read different cell fields / line collections",
            key="R18.2|ReportTable|cell field")
-    hidden_json = any("is_hidden" in norm(i.test) for i in own_nodes(tj) if isinstance(i, ast.If))
-    hidden_csv = any("is_hidden" in norm(i.test) for i in own_nodes(tc) if isinstance(i, ast.If))
+    def honours_hidden(fn):
+        return any("is_hidden" in norm(i.test) for i in own_nodes(fn) if isinstance(i, ast.If)) or \
+            any("is_hidden" in norm(c_) for l in own_nodes(fn) if isinstance(l, ast.comprehension) for c_ in l.ifs)
+    hidden_json, hidden_csv = honours_hidden(tj), honours_hidden(tc)
     setters = []
     for fn in repo.all_funcs():
         for x in own_nodes(fn):
@@ -193,8 +212,7 @@ def run(ctx: Ctx):
     ctx.ob("R18.2", f"row filter is_hidden: JSON honours={hidden_json}, CSV honours={hidden_csv}, writers of True={setters}", tj, ok,
            "the asymmetric filter can never be set" if ok else "a hidden row is dropped from JSON but kept in CSV", key="R18.2|ReportTable|is_hidden")
     # column names and header come from the same header cells
-    hdr_json = any(isinstance(l, ast.For) and norm(l.iter) == "self.header_lines" for l in own_nodes(tj))
-    hdr_csv = any(isinstance(l, ast.For) and norm(l.iter) == "self.header_lines" for l in own_nodes(tc))
+    hdr_json, hdr_csv = iterates(tj, "header_lines"), iterates(tc, "header_lines")
     ctx.ob("R18.2", "column names come from the header line in both renderings", tj, hdr_json and hdr_csv,
            "header cells name the columns" if hdr_json and hdr_csv else "renderings derive column names differently", key="R18.2|ReportTable|header")
     # the two file writers dump exactly these renderings
